@@ -296,11 +296,30 @@ def main(argv=None):
     models = [None] * len(cases)
     driver_error = None
     if lean.build_ok:
-        idx = [i for i, c in enumerate(cases) if mod.model_request(c) is not None]
+        # a module may ask for several model runs per case, depending on what was observed (model_requests)
+        multi = hasattr(mod, "model_requests")
+        reqs, slots = [], []
+        for i, (c, o) in enumerate(zip(cases, observed)):
+            if multi:
+                rs = mod.model_requests(c, o)
+                if rs:
+                    slots.append((i, len(rs)))
+                    reqs.extend(rs)
+            else:
+                r = mod.model_request(c)
+                if r is not None:
+                    slots.append((i, None))
+                    reqs.append(r)
         try:
-            replies = run_driver([mod.model_request(cases[i]) for i in idx])
-            for i, r in zip(idx, replies):
-                models[i] = r
+            replies = run_driver(reqs)
+            k = 0
+            for i, n in slots:
+                if n is None:
+                    models[i] = replies[k]
+                    k += 1
+                else:
+                    models[i] = replies[k:k + n]
+                    k += n
         except Exception as exc:  # driver crashed: treated like a broken correspondence
             driver_error = str(exc)
 
